@@ -640,3 +640,178 @@ Proof.
     intros [a1 b1] [a2 b2] H. unfold row_eqb in H. cbn in H. apply andb_true_iff in H. destruct H as [Ha Hb].
     apply String.eqb_eq in Ha. apply String.eqb_eq in Hb. congruence.
 Qed.
+
+(* ------------------------------------------------------------------ the observation oracle accepts every model log *)
+(* omon (the oracle checks/c18.py evaluates on the call logs of the real Update, scripts identified by
+   content) never rejects a log the model can produce: so a rejection of an observed log is either a
+   property violation or a model/implementation mismatch, never an artefact of the oracle. *)
+Lemma stream_of_k_k k : stream_of_k (stream_k k) = Some k.
+Proof. destruct k; reflexivity. Qed.
+
+Section ObsProofs.
+  Variables (cat stmt : Type).
+  Variable exec : stmt -> cat -> option cat.
+  Variable scripts : stream -> list stmt.
+  Variable sids : stream -> list N.
+  Hypothesis sids_len : forall k, List.length (sids k) = List.length (scripts k).
+  Hypothesis sids_nonzero : forall k i, i < List.length (sids k) -> sid_at sids k i <> 0%N.
+
+  Notation db := (db cat).
+  Notation absl l := (map (abs_event sids) l).
+  Notation omon_run := (omon_run sids).
+  Notation omon_step := (omon_step sids).
+  Notation len k := (List.length (scripts k)).
+
+  Definition OLink (d : db) (m : omst) : Prop := forall k, d_vers d k <= om_app m k.
+
+  Lemma omon_run_app m l1 l2 :
+    omon_run m (l1 ++ l2) = match omon_run m l1 with Some a => omon_run a l2 | None => None end.
+  Proof. revert m; induction l1 as [|e l1 IH]; intros m; cbn; [reflexivity|]. destruct (omon_step m e); auto. Qed.
+
+  Lemma existsb_nth_firstn : forall (l : list N) v a, v < a -> v < List.length l ->
+    existsb (N.eqb (nth v l 0%N)) (firstn a l) = true.
+  Proof.
+    induction l as [|x l IH]; intros v a Hva Hvl; cbn in Hvl; [lia|].
+    destruct a as [|a]; [lia|]. destruct v as [|v]; cbn.
+    - now rewrite N.eqb_refl.
+    - rewrite (IH v a); [apply orb_true_r|lia|lia].
+  Qed.
+
+  (* a script event of stream k at index v, in a state whose applied count is at least v *)
+  Lemma omon_script k v r (m : omst) : om_cur m = Some k -> v <= om_app m k -> v < len k ->
+    exists m', omon_step m (OScript (sid_at sids k v) r) = Some m' /\ om_cur m' = Some k /\
+               (forall k', om_app m k' <= om_app m' k') /\ (res_applied r = true -> S v <= om_app m' k).
+  Proof.
+    intros Hcur Hle Hlt. cbn [Migrate.omon_step]. destruct (res_applied r) eqn:A.
+    2:{ exists m. split; [reflexivity|]. split; [exact Hcur|]. split; [auto|discriminate]. }
+    rewrite Hcur. rewrite <- sids_len in Hlt.
+    assert (Hnz : N.eqb (sid_at sids k v) 0 = false) by (apply N.eqb_neq, sids_nonzero, Hlt).
+    rewrite Hnz. cbn [negb]. rewrite !andb_true_r.
+    destruct ((om_app m k <? List.length (sids k)) && N.eqb (sid_at sids k (om_app m k)) (sid_at sids k v)) eqn:B.
+    - eexists. split; [reflexivity|]. cbn [om_cur om_app]. split; [reflexivity|]. split.
+      + intros k'. destruct (stream_eqb k' k) eqn:E; [apply stream_eqb_eq in E; subst; lia|lia].
+      + intros _. rewrite stream_eqb_refl. lia.
+    - assert (Hgt : v < om_app m k).
+      { destruct (Nat.eq_dec v (om_app m k)) as [He|Hne]; [|lia]. exfalso. rewrite <- He in B.
+        rewrite N.eqb_refl, andb_true_r in B. apply Nat.ltb_ge in B. lia. }
+      unfold sid_at at 1. rewrite (existsb_nth_firstn _ _ _ Hgt Hlt).
+      exists m. split; [reflexivity|]. split; [exact Hcur|]. split; [auto|intros _; lia].
+  Qed.
+
+  Lemma omon_insver k v r (m : omst) : v <= om_app m k ->
+    omon_step m (OInsVer (stream_k k) (N.of_nat v) r) = Some m.
+  Proof.
+    intros H. cbn [Migrate.omon_step]. rewrite stream_of_k_k, Nat2N.id.
+    apply Nat.leb_le in H. rewrite H. destruct (res_applied r); reflexivity.
+  Qed.
+
+  Lemma loop_omon k : forall n os (d : db) m, n + d_vers d k = len k -> om_cur m = Some k -> OLink d m ->
+    let r := loop cat stmt exec k (skipn (d_vers d k) (scripts k)) (d_vers d k) os d in
+    exists m', omon_run m (absl (r_log r)) = Some m' /\ OLink (r_db r) m'.
+  Proof.
+    induction n as [|n IH]; intros os d m Hn Hcur HL.
+    - rewrite skipn_all2 by lia. cbn. eauto.
+    - rewrite skipn_nth. destruct (nth_error (scripts k) (d_vers d k)) as [x|] eqn:Hx.
+      2:{ apply nth_error_None in Hx. lia. }
+      assert (Hlt : d_vers d k < len k) by (apply nth_error_Some; congruence).
+      cbn [Migrate.loop].
+      destruct (do_call cat (o_hd os) (eff_script cat stmt exec x) d) as [d1 r1] eqn:E1.
+      destruct (omon_script k (d_vers d k) r1 m Hcur (HL k) Hlt) as (m1 & Hs1 & Hcur1 & Hmono & Happ).
+      assert (Hv1 : d_vers d1 = d_vers d).
+      { destruct (do_call_inv _ _ _ _ _ _ E1) as [[_ He]|[[_ He]|[_ ->]]]; [| |reflexivity];
+          apply eff_script_inv in He; destruct He as (c' & _ & _ & Hv & _); exact Hv. }
+      assert (HL1 : OLink d1 m1) by (intros k'; rewrite Hv1; specialize (HL k'); specialize (Hmono k'); lia).
+      destruct (res_ok r1) eqn:R1.
+      + specialize (Happ (res_ok_applied _ R1)).
+        destruct (do_call cat (o_hd (tl os)) (eff_setver cat k (S (d_vers d k))) d1) as [d2 r2] eqn:E2.
+        assert (HL2 : OLink d2 m1).
+        { destruct (do_call_inv _ _ _ _ _ _ E2) as [[_ He]|[[_ He]|[_ ->]]]; [| |exact HL1];
+            apply eff_setver_inv in He; destruct He as (_ & _ & _ & Hk & Hoth);
+            intros k'; (destruct (stream_eqb k' k) eqn:Ek;
+              [apply stream_eqb_eq in Ek; subst k'; rewrite Hk, Hv1; specialize (HL1 k); rewrite Hv1 in HL1; lia
+              |rewrite Hoth; [apply HL1|intros ->; rewrite stream_eqb_refl in Ek; discriminate]]). }
+        destruct (res_ok r2) eqn:R2.
+        * assert (Hd2k : d_vers d2 k = S (d_vers d k)).
+          { destruct (do_call_inv _ _ _ _ _ _ E2) as [[_ He]|[[-> _]|[Hn' _]]]; [|discriminate|].
+            - apply eff_setver_inv in He. destruct He as (_ & _ & _ & Hk & _). rewrite Hk, Hv1. lia.
+            - rewrite (res_ok_applied _ R2) in Hn'. discriminate. }
+          assert (Hn2 : n + d_vers d2 k = len k) by lia.
+          destruct (IH (tl (tl os)) d2 m1 Hn2 Hcur1 HL2) as (m' & Hm & HL'). rewrite Hd2k in Hm, HL'.
+          cbn [r_log r_db map abs_event Migrate.omon_run]. rewrite Hs1, (omon_insver _ _ _ _ Happ). eauto.
+        * cbn [r_log r_db map abs_event Migrate.omon_run]. rewrite Hs1, (omon_insver _ _ _ _ Happ). eauto.
+      + cbn [r_log r_db map abs_event Migrate.omon_run]. rewrite Hs1. eauto.
+  Qed.
+
+  Lemma prelude_omon c k os (d : db) m :
+    let p := prelude cat c k os d in
+    exists m', omon_run m (absl (r_log p)) = Some m' /\ om_app m' = om_app m /\ (r_ok p = true -> om_cur m' = Some k).
+  Proof.
+    unfold Migrate.prelude.
+    destruct (do_call cat (o_hd os) (eff_create_ver cat) d) as [d1 r1].
+    destruct (res_ok r1); cbn [negb].
+    2:{ cbn. eexists. split; [reflexivity|]. split; [reflexivity|discriminate]. }
+    destruct (clustered c).
+    - destruct (do_call cat (o_hd (tl os)) (eff_create_vd cat) d1) as [d2 r2].
+      destruct (res_ok r2); cbn [negb].
+      2:{ cbn. eexists. split; [reflexivity|]. split; [reflexivity|discriminate]. }
+      destruct (do_call cat (o_hd (tl (tl os))) (eff_read cat c) d2) as [d3 r3].
+      cbn [negb r_log r_ok map app abs_event Migrate.omon_run Migrate.omon_step]. rewrite stream_of_k_k.
+      eexists. split; [reflexivity|]. cbn. auto.
+    - destruct (do_call cat (o_hd (tl os)) (eff_read cat c) d1) as [d3 r3].
+      cbn [negb r_log r_ok map app abs_event Migrate.omon_run Migrate.omon_step]. rewrite stream_of_k_k.
+      eexists. split; [reflexivity|]. cbn. auto.
+  Qed.
+
+  Lemma us_omon c k os (d : db) m : OLink d m ->
+    let r := us cat stmt exec scripts c k os d in
+    exists m', omon_run m (absl (r_log r)) = Some m' /\ OLink (r_db r) m'.
+  Proof.
+    intros HL. unfold Migrate.us.
+    destruct (prelude_props cat c k os d) as (_ & Hv & _ & _ & _ & _).
+    destruct (prelude_omon c k os d m) as (m1 & Hm1 & Happ1 & Hcur1).
+    set (p := prelude cat c k os d) in *.
+    assert (HLp : OLink (r_db p) m1) by (intros k'; rewrite Hv, Happ1; apply HL).
+    destruct (r_ok p) eqn:Hok.
+    - cbn [r_log r_db]. rewrite map_app, omon_run_app, Hm1.
+      destruct (le_lt_dec (len k) (d_vers (r_db p) k)) as [Hge|Hlt].
+      + rewrite skipn_all2 by exact Hge. cbn. eauto.
+      + assert (Hn : (len k - d_vers (r_db p) k) + d_vers (r_db p) k = len k) by lia.
+        exact (loop_omon k _ (r_os p) (r_db p) m1 Hn (Hcur1 eq_refl) HLp).
+    - eauto.
+  Qed.
+
+  Lemma run_streams_omon c : forall ks os (d : db) m, OLink d m ->
+    let r := run_streams cat stmt exec scripts c ks os d in
+    exists m', omon_run m (absl (r_log r)) = Some m' /\ OLink (r_db r) m'.
+  Proof.
+    induction ks as [|k ks IH]; intros os d m HL; cbn [Migrate.run_streams].
+    - cbn. eauto.
+    - destruct (us_omon c k os d m HL) as (m1 & Hm1 & HL1).
+      destruct (r_ok (us cat stmt exec scripts c k os d)).
+      + destruct (IH (r_os (us cat stmt exec scripts c k os d)) (r_db (us cat stmt exec scripts c k os d)) m1 HL1) as (m2 & Hm2 & HL2).
+        cbn [r_log r_db]. rewrite map_app, omon_run_app, Hm1. eauto.
+      + eauto.
+  Qed.
+
+  Lemma multi_run_omon c : forall runs (d : db) m, OLink d m ->
+    exists m', omon_run m (absl (snd (multi_run cat stmt exec scripts c runs d))) = Some m' /\
+               OLink (fst (multi_run cat stmt exec scripts c runs d)) m'.
+  Proof.
+    induction runs as [|os runs IH]; intros d m HL; cbn [Migrate.multi_run].
+    - cbn. eauto.
+    - destruct (run_streams_omon c (streams_of c) os d m HL) as (m1 & Hm1 & HL1).
+      fold (update cat stmt exec scripts c os d) in Hm1, HL1.
+      destruct (IH (r_db (update cat stmt exec scripts c os d)) m1 HL1) as (m2 & Hm2 & HL2).
+      destruct (multi_run cat stmt exec scripts c runs (r_db (update cat stmt exec scripts c os d))) as [d' l].
+      cbn [fst snd] in *. rewrite map_app, omon_run_app, Hm1. eauto.
+  Qed.
+
+  Theorem oracle_accepts_model_logs c runs c0 :
+    omon_ok sids (absl (snd (multi_run cat stmt exec scripts c runs (db0 cat c0)))) = true.
+  Proof.
+    unfold omon_ok.
+    destruct (multi_run_omon c runs (db0 cat c0) {| om_cur := None; om_app := fun _ => 0 |}) as (m' & Hm & _).
+    - intros k. cbn. lia.
+    - now rewrite Hm.
+  Qed.
+End ObsProofs.
